@@ -1,7 +1,8 @@
 //! C10 — RDH sanity and running checks implement the documented rules exactly.
 //!
 //! (a) enum: a conforming 6-RDH link sequence with every single-bit flip of all 512 header bits at positions
-//!     {first, second, fifth}, all pairs of flips at the fifth position (thorough; a fixed quarter in quick),
+//!     {first, second, fifth}, all pairs of flips at the fifth position (thorough; a fixed quarter in quick), pairs of
+//!     flips at the first position (one bit inside RDH0 in quick, all pairs in thorough),
 //!     field boundary values; whole-sequence verdicts (E10 / E11 per RDH, offsets) vs the rule table.
 //! (b) xs: product of the real per-link RDH checkers (inside a real `LinkValidator`, `check all`) with the
 //!     documented running automaton over a 192-symbol RDH alphabet, to the fixpoint.
@@ -278,6 +279,18 @@ pub fn run(tier: Tier) -> i32 {
             cases.push((s, Mode::AllIts, format!("flip bits {a},{b} at RDH 4")));
         }
     }
+    // pairs of flips at the FIRST RDH (it sets the per-link memories, e.g. the header version to compare with): every
+    // pair with at least one bit inside RDH0 (bits 0..63); thorough: every pair of the 512 bits
+    for a in 0..512usize {
+        for b in (a + 1)..512 {
+            if !tier.is_thorough() && a >= 64 {
+                continue;
+            }
+            let mut s = base.clone();
+            s[0] = flip(&flip(&s[0], a), b);
+            cases.push((s, if (a + b) % 2 == 0 { Mode::AllIts } else { Mode::Sanity }, format!("flip bits {a},{b} at RDH 0")));
+        }
+    }
     // field boundary values at the fifth RDH
     let mut bnd: Vec<(String, Box<dyn Fn(&mut Rdh)>)> = Vec::new();
     for bc in [0u16, 0xdea, 0xdeb, 0xdec, 0xfff] {
@@ -377,7 +390,7 @@ pub fn run(tier: Tier) -> i32 {
     rep.cov("distinct_nontrivial", json!(flagged_cases));
     rep.cov("exhaustive", json!(true));
     rep.cov("pairs_complete", json!(tier.is_thorough()));
-    rep.cov("rule", json!("xs: product (documented running automaton x real LinkValidator RDH checkers) over 192 RDH symbols (page 0..3 x stop 0..2 x 2 orbits x 2 triggers x 2 FEE ids x 2 detector fields), sequences starting with pages 0,1, BFS to fixpoint with per-step oracle E10/E11 iff rule table; enum: 512 single-bit flips at RDH 0/1/4 x 4 modes, pairs of flips at RDH 4 (all in thorough, a fixed quarter in quick), field boundary sets x 4 modes"));
+    rep.cov("rule", json!("xs: product (documented running automaton x real LinkValidator RDH checkers) over 192 RDH symbols (page 0..3 x stop 0..2 x 2 orbits x 2 triggers x 2 FEE ids x 2 detector fields), sequences starting with pages 0,1, BFS to fixpoint with per-step oracle E10/E11 iff rule table; enum: 512 single-bit flips at RDH 0/1/4 x 4 modes, pairs of flips at RDH 4 (all in thorough, a fixed quarter in quick), pairs of flips at RDH 0 (one bit within RDH0 in quick, all pairs in thorough), field boundary sets x 4 modes"));
     if let Some(r) = xr.representatives.iter().find(|r| r.len() >= 4) {
         rep.sample(json!({"xs_history": r.iter().map(|s| format!("{:?}", s)).collect::<Vec<_>>()}));
     }
